@@ -274,11 +274,22 @@ macro_rules! with_query {
             43 => { type $Q = Option<$crate::query_engine::DStruct<'static>>; $body }
             44 => { type $Q = $crate::query_engine::DEnum2<'static>; $body }
             45 => { type $Q = Or<$crate::query_engine::DEnum2<'static>, &'static E>; $body }
+            // queries that alias a unique borrow within themselves: rejected statically by `assert_borrow` where
+            // there is no dynamic check, dynamically where there is one
+            46 => { type $Q = (&'static mut A, &'static A); $body }
+            47 => { type $Q = (&'static mut B, Option<&'static mut B>); $body }
             _ => panic!("harness: bad query menu index"),
         }
     }};
 }
-pub const NQUERIES: usize = 46;
+pub const NQUERIES: usize = 48;
+/// menu entries from here on alias a unique borrow within themselves
+pub const FIRST_ALIASING: usize = 46;
+/// access paths that reject such a query by `assert_borrow`, before touching anything
+pub const ASSERTING_PATHS: [&str; 12] = [
+    "mut", "mut_batched", "view_mut", "many_v", "one", "one_mut", "eref", "many", "many_w", "prepared_mut", "prepared_view",
+    "many_pv",
+];
 
 pub fn query_desc(k: usize) -> String {
     with_query!(k, QT, <QT as ModelDesc>::desc())
